@@ -143,4 +143,1173 @@ theorem longestPending_of_longestMatch {d : Dict} {data : Pattern} (hne : longes
   · exact absurd h2 hne
   · exact ⟨h2, h1, h4⟩
 
+
+/-! ## the repaired code in normal form -/
+
+def mkTimer (s : State) (pk : Pk) (pat : Pattern) (T req : Nat) : Timer :=
+  { pk := pk, pattern := pat, interval := T, deadline := s.now + T, req := req, st := .armed }
+
+def mkTx (s : State) (l : Link) (pk : Pk) (req : Nat) (retry : Option Nat) (due T : Nat) : Tx :=
+  { time := s.now, sid := l.sid, pk := pk, req := req, retry := retry, due := due, interval := T,
+    onClosed := s.closed.contains l.sid }
+
+/-- The steps of the repaired code, in normal form. -/
+inductive Shape (s : State) : Ev → State → Prop
+  | same (e) : Shape s e s
+  | advance (dt) : Shape s (.advance dt) { s with now := s.now + dt }
+  | setResend (nr l) (h : s.link = some l) :
+      Shape s (.setResend nr) { s with link := some { l with needsResending := nr } }
+  | openLink (nr) :
+      Shape s (.openLink nr) { s with timers := cancelAll s.timers s.patterns, patterns := [],
+                                      link := some ⟨s.nextSid, nr⟩, nextSid := s.nextSid + 1 }
+  | drop (e) (he : e = .closeRest ∨ e = .linkError) :
+      Shape s e { s with link := none,
+                         closed := (match s.link with | some l => l.sid :: s.closed | none => s.closed),
+                         timers := cancelAll s.timers s.patterns, patterns := [] }
+  | bump (e) (hl : s.link = none) : Shape s e { s with nextReq := s.nextReq + 1 }
+  | tx (e) (l) (hl : s.link = some l) (pk T)
+      (he : (∃ ex, e = .send pk ex T ∧ (ex = [] ∨ l.needsResending = false)) ∨ e = .closeSetpoint) :
+      Shape s e { s with nextReq := s.nextReq + 1, log := mkTx s l pk s.nextReq none s.now T :: s.log }
+  | armTx (l) (hl : s.link = some l) (pk ex T) (hex : ex ≠ []) (hnr : l.needsResending = true) :
+      Shape s (.send pk ex T)
+        { s with nextReq := s.nextReq + 1,
+                 timers := s.timers ++ [mkTimer s pk (pk.header :: ex) T s.nextReq],
+                 patterns := dset s.patterns (pk.header :: ex) s.timers.length,
+                 log := mkTx s l pk s.nextReq none s.now T :: s.log }
+  | cancel (h d p i) (hp : LongestPending s.patterns (h :: d) p) (hne : p ≠ []) (hi : dget s.patterns p = some i) :
+      Shape s (.recv h d) { s with timers := s.timers.modify i cancelT, patterns := ddel s.patterns p }
+  | expire (i t) (ht : s.timers[i]? = some t) (ha : t.st = .armed) (hd : t.deadline ≤ s.now) :
+      Shape s (.expire i) { s with timers := s.timers.modify i (setSt .expired) }
+  | runNoop (i t) (ht : s.timers[i]? = some t) (he : t.st = .expired)
+      (hn : s.link = none ∨ dget s.patterns t.pattern ≠ some i) :
+      Shape s (.run i) { s with timers := s.timers.modify i (setSt .done) }
+  | runRetry (i t l) (ht : s.timers[i]? = some t) (he : t.st = .expired) (hl : s.link = some l)
+      (hent : dget s.patterns t.pattern = some i) :
+      Shape s (.run i)
+        { s with timers := s.timers.modify i (setSt .done) ++ [mkTimer s t.pk t.pattern t.interval t.req],
+                 patterns := dset s.patterns t.pattern s.timers.length,
+                 log := mkTx s l t.pk t.req (some i) t.deadline t.interval :: s.log }
+
+theorem sendCore_fresh {c : Cfg} (hc : c.Repaired) (s : State) (pk : Pk) (ex : Pattern) (T req due : Nat) :
+    sendCore c s pk ex T req none due = .ok
+      (match s.link with
+       | none => s
+       | some l =>
+         if ex ≠ [] ∧ l.needsResending = true then
+           { s with timers := s.timers ++ [mkTimer s pk (pk.header :: ex) T req],
+                    patterns := dset s.patterns (pk.header :: ex) s.timers.length,
+                    log := mkTx s l pk req none due T :: s.log }
+         else { s with log := mkTx s l pk req none due T :: s.log }) := by
+  unfold sendCore
+  cases hl : s.link with
+  | none => simp [hc.arms, hc.transmits]
+  | some l =>
+    simp only [hc.arms, hc.transmits, Option.isSome_none, Bool.false_eq_true, if_false, Bool.not_false,
+      Bool.true_and, Bool.false_and, Bool.or_false, Bool.and_true, Bool.true_or, if_true]
+    by_cases h1 : ex = []
+    · subst h1; simp [mkTx, hl]
+    · cases hnr : l.needsResending <;> simp [h1, mkTx, mkTimer, hl]
+
+theorem sendCore_retry {c : Cfg} (hc : c.Repaired) (s : State) (pk : Pk) (pat : Pattern) (T req i due : Nat) :
+    sendCore c s pk pat T req (some i) due = .ok
+      (match s.link with
+       | none => s
+       | some l =>
+         if dget s.patterns pat = some i then
+           { s with timers := s.timers ++ [mkTimer s pk pat T req],
+                    patterns := dset s.patterns pat s.timers.length,
+                    log := mkTx s l pk req (some i) due T :: s.log }
+         else s) := by
+  unfold sendCore
+  cases hl : s.link with
+  | none => simp [hc.arms, hc.transmits]
+  | some l =>
+    simp only [hc.arms, hc.transmits, Option.isSome_some, Bool.true_and, Bool.not_true, Bool.false_and,
+      Bool.false_or, if_true]
+    by_cases h1 : dget s.patterns pat = some i
+    · simp [h1, mkTx, mkTimer, hl]
+    · have : (dget s.patterns pat == some i) = false := by simpa using h1
+      simp [h1, this, hl]
+
+theorem forget_tt (s : State) :
+    forget true true s = { s with timers := cancelAll s.timers s.patterns, patterns := [] } := rfl
+
+@[simp] theorem dropLink_timers (s : State) : (dropLink s).timers = s.timers := by unfold dropLink; split <;> rfl
+@[simp] theorem dropLink_patterns (s : State) : (dropLink s).patterns = s.patterns := by unfold dropLink; split <;> rfl
+@[simp] theorem dropLink_log (s : State) : (dropLink s).log = s.log := by unfold dropLink; split <;> rfl
+@[simp] theorem dropLink_nextReq (s : State) : (dropLink s).nextReq = s.nextReq := by unfold dropLink; split <;> rfl
+@[simp] theorem dropLink_nextSid (s : State) : (dropLink s).nextSid = s.nextSid := by unfold dropLink; split <;> rfl
+@[simp] theorem dropLink_now (s : State) : (dropLink s).now = s.now := by unfold dropLink; split <;> rfl
+@[simp] theorem dropLink_link (s : State) : (dropLink s).link = none := by unfold dropLink; split <;> simp_all
+
+theorem Shape.cast {s : State} {e : Ev} {s' s'' : State} (h : Shape s e s') (heq : s' = s'') : Shape s e s'' := heq ▸ h
+
+theorem step_shape {c : Cfg} (hc : c.Repaired) (s : State) (e : Ev) : Shape s e (stepT c s e) := by
+  unfold stepT
+  cases e with
+  | openLink nr =>
+    simp only [step, hc.openCancels, hc.openClears, forget_tt]
+    exact Shape.openLink nr
+  | setResend nr =>
+    simp only [step]
+    cases hl : s.link with
+    | none => exact Shape.same _
+    | some l => exact Shape.setResend nr l hl
+  | send pk ex T =>
+    simp only [step]
+    by_cases hsz : pk.size > Gen.C10.maxDataSize
+    · simp only [hsz, if_true]; exact Shape.same _
+    · simp only [hsz, if_false, sendCore_fresh hc]
+      cases hl : s.link with
+      | none => exact (Shape.bump _ hl).cast (by simp [hl])
+      | some l =>
+        by_cases h : ex ≠ [] ∧ l.needsResending = true
+        · exact (Shape.armTx l hl pk ex T h.1 h.2).cast (by simp [hl, h, mkTx, mkTimer])
+        · refine (Shape.tx _ l hl pk T (Or.inl ⟨ex, rfl, ?_⟩)).cast (by simp [hl, h, mkTx])
+          by_cases h1 : ex = []
+          · exact Or.inl h1
+          · right; cases hnr : l.needsResending
+            · rfl
+            · exact absurd ⟨h1, hnr⟩ h
+  | recv h d =>
+    simp only [step, checkForAnswers]
+    by_cases hlm : (longestMatch (h :: d) s.patterns []).length > 0
+    · simp only [hlm, if_true]
+      have hne : longestMatch (h :: d) s.patterns [] ≠ [] := List.length_pos_iff.mp hlm
+      have hp := longestPending_of_longestMatch hne
+      cases hi : dget s.patterns (longestMatch (h :: d) s.patterns []) with
+      | none => exact Shape.same _
+      | some i => exact Shape.cancel h d _ i hp hne hi
+    · simp only [hlm, if_false]; exact Shape.same _
+  | expire i =>
+    simp only [step]
+    cases ht : s.timers[i]? with
+    | none => exact Shape.same _
+    | some t =>
+      by_cases h : t.st = .armed ∧ t.deadline ≤ s.now
+      · simp only [h, and_self, if_true]; exact Shape.expire i t ht h.1 h.2
+      · simp only [h, if_false]; exact Shape.same _
+  | run i =>
+    simp only [step]
+    cases ht : s.timers[i]? with
+    | none => exact Shape.same _
+    | some t =>
+      by_cases h : t.st = .expired
+      · simp only [h, if_true, hc.keeps, sendCore_retry hc]
+        cases hl : s.link with
+        | none => exact (Shape.runNoop i t ht h (Or.inl hl)).cast (by simp [hl])
+        | some l =>
+          by_cases hent : dget s.patterns t.pattern = some i
+          · exact (Shape.runRetry i t l ht h hl hent).cast (by simp [hl, hent, mkTx, mkTimer])
+          · exact (Shape.runNoop i t ht h (Or.inr hent)).cast (by simp [hl, hent])
+      · simp only [h, if_false]; exact Shape.same _
+  | advance dt => simp only [step]; exact Shape.advance dt
+  | closeSetpoint =>
+    simp only [step]
+    cases hl : s.link with
+    | none => simp; exact Shape.same _
+    | some l =>
+      by_cases hcs : c.closeSetpoint = true
+      · simp only [hcs, Option.isSome_some, Bool.and_self, if_true, sendCore_fresh hc]
+        exact (Shape.tx _ l hl setpointPk c.defaultTimeout (Or.inr rfl)).cast (by simp [hl, mkTx])
+      · simp [hcs]; exact Shape.same _
+  | closeRest =>
+    simp only [step, hc.closeCancels, hc.closeClears, forget_tt]
+    exact (Shape.drop _ (Or.inl rfl)).cast (by unfold dropLink; split <;> simp_all)
+  | linkError =>
+    simp only [step, hc.errorCancels, hc.errorClears, forget_tt]
+    exact (Shape.drop _ (Or.inr rfl)).cast (by unfold dropLink; split <;> simp_all)
+
+/-! ## timers: steps only ever change the `st` of an existing timer -/
+
+def SameButSt (t t' : Timer) : Prop :=
+  t'.pk = t.pk ∧ t'.pattern = t.pattern ∧ t'.interval = t.interval ∧ t'.deadline = t.deadline ∧ t'.req = t.req
+
+theorem SameButSt.refl (t : Timer) : SameButSt t t := ⟨rfl, rfl, rfl, rfl, rfl⟩
+
+theorem sameButSt_cancelT (t : Timer) : SameButSt t (cancelT t) := by
+  unfold cancelT; split <;> exact ⟨rfl, rfl, rfl, rfl, rfl⟩
+
+theorem sameButSt_setSt (x : TSt) (t : Timer) : SameButSt t (setSt x t) := ⟨rfl, rfl, rfl, rfl, rfl⟩
+
+/-- `ts'` has the same timers as `ts` up to their `st` -/
+def TsSim (ts ts' : List Timer) : Prop :=
+  ts'.length = ts.length ∧ ∀ (j : Nat) (t' : Timer), ts'[j]? = some t' → ∃ t, ts[j]? = some t ∧ SameButSt t t'
+
+theorem TsSim.refl (ts : List Timer) : TsSim ts ts := ⟨rfl, fun _ t' h => ⟨t', h, SameButSt.refl _⟩⟩
+
+theorem TsSim.trans {a b c : List Timer} (h1 : TsSim a b) (h2 : TsSim b c) : TsSim a c := by
+  refine ⟨h2.1.trans h1.1, fun j t' h => ?_⟩
+  obtain ⟨t, ht, hs⟩ := h2.2 j t' h
+  obtain ⟨t0, ht0, hs0⟩ := h1.2 j t ht
+  exact ⟨t0, ht0, hs.1.trans hs0.1, hs.2.1.trans hs0.2.1, hs.2.2.1.trans hs0.2.2.1,
+    hs.2.2.2.1.trans hs0.2.2.2.1, hs.2.2.2.2.trans hs0.2.2.2.2⟩
+
+theorem tsSim_modify (ts : List Timer) (i : Nat) (f : Timer → Timer) (hf : ∀ t, SameButSt t (f t)) :
+    TsSim ts (ts.modify i f) := by
+  refine ⟨List.length_modify .., fun j t' h => ?_⟩
+  rw [List.getElem?_modify] at h
+  cases hj : ts[j]? with
+  | none => simp [hj] at h
+  | some t =>
+    simp only [hj, Option.map_eq_map, Option.map_some, Option.some.injEq] at h
+    refine ⟨t, rfl, ?_⟩
+    subst h
+    split
+    · exact hf t
+    · exact SameButSt.refl t
+
+theorem tsSim_cancelAll (ts : List Timer) (d : Dict) : TsSim ts (cancelAll ts d) := by
+  induction d generalizing ts with
+  | nil => exact TsSim.refl ts
+  | cons e r ih =>
+    obtain ⟨p, i⟩ := e
+    simp only [cancelAll]
+    exact (tsSim_modify ts i cancelT sameButSt_cancelT).trans (ih _)
+
+theorem TsSim.getElem? {ts ts' : List Timer} (h : TsSim ts ts') {j : Nat} {t : Timer} (ht : ts[j]? = some t) :
+    ∃ t', ts'[j]? = some t' ∧ SameButSt t t' := by
+  have hj : j < ts'.length := by
+    rw [h.1]; exact (List.getElem?_eq_some_iff.mp ht).1
+  refine ⟨ts'[j], List.getElem?_eq_getElem hj, ?_⟩
+  obtain ⟨t0, ht0, hs⟩ := h.2 j ts'[j] (List.getElem?_eq_getElem hj)
+  rw [ht] at ht0
+  cases ht0
+  exact hs
+
+/-! ## invariants of the repaired code -/
+
+/-- no timer of request `r` is registered any more: nothing will ever transmit `r` again (`reqDead_run`) -/
+def ReqDead (s : State) (r : Nat) : Prop :=
+  ∀ (i : Nat) (t : Timer), s.timers[i]? = some t → t.req = r → dget s.patterns t.pattern ≠ some i
+
+/-- every retransmission comes one interval after the previous transmission of the same request (`due`), on the same
+link, with the same packet, and not before it is due -/
+def Spaced : List Tx → Prop
+  | [] => True
+  | tx :: b =>
+    (tx.retry.isSome → ∃ prev, b.find? (fun x => x.req == tx.req) = some prev ∧ prev.time + tx.interval = tx.due ∧
+        tx.due ≤ tx.time ∧ prev.pk = tx.pk ∧ prev.sid = tx.sid ∧ prev.interval = tx.interval) ∧
+    (tx.retry = none → ∀ x ∈ b, x.req ≠ tx.req) ∧ Spaced b
+
+structure Inv (s : State) : Prop where
+  entry : ∀ (p : Pattern) (i : Nat), dget s.patterns p = some i → ∃ t, s.timers[i]? = some t ∧ t.pattern = p
+  treq : ∀ (i : Nat) (t : Timer), s.timers[i]? = some t → t.req < s.nextReq
+  lreq : ∀ tx ∈ s.log, tx.req < s.nextReq
+  chain : ∀ (i j : Nat) (ti tj : Timer), s.timers[i]? = some ti → s.timers[j]? = some tj → ti.req = tj.req →
+    ti.pattern = tj.pattern ∧ ti.pk = tj.pk ∧ ti.interval = tj.interval
+  linkFresh : ∀ l, s.link = some l → l.sid < s.nextSid ∧ l.sid ∉ s.closed
+  closedLt : ∀ x ∈ s.closed, x < s.nextSid
+  noClosedTx : ∀ tx ∈ s.log, tx.onClosed = false
+  live : ∀ tx ∈ s.log, ReqDead s tx.req ∨ ∃ l, s.link = some l ∧ tx.sid = l.sid
+  sameReq : ∀ a ∈ s.log, ∀ b ∈ s.log, a.req = b.req → a.sid = b.sid ∧ a.pk = b.pk ∧ a.interval = b.interval
+  last : ∀ (p : Pattern) (i : Nat) (t : Timer), dget s.patterns p = some i → s.timers[i]? = some t →
+    ∃ tx, s.log.find? (fun x => x.req == t.req) = some tx ∧ tx.time + t.interval = t.deadline ∧ tx.pk = t.pk ∧
+      tx.interval = t.interval
+  expiredDue : ∀ (i : Nat) (t : Timer), s.timers[i]? = some t → t.st = .expired → t.deadline ≤ s.now
+  spaced : Spaced s.log
+  keyNe : ∀ (p : Pattern) (i : Nat), dget s.patterns p = some i → p ≠ []
+  lsid : ∀ tx ∈ s.log, tx.sid < s.nextSid
+
+theorem inv_init : Inv init := by
+  constructor <;> simp [init, dget, Spaced]
+
+theorem getElem?_snoc {ts : List Timer} {x t : Timer} {j : Nat} (h : (ts ++ [x])[j]? = some t) :
+    ts[j]? = some t ∨ (j = ts.length ∧ t = x) := by
+  by_cases hj : j < ts.length
+  · left; rwa [List.getElem?_append_left hj] at h
+  · right
+    have hj' : ts.length ≤ j := Nat.le_of_not_lt hj
+    rw [List.getElem?_append_right hj'] at h
+    cases hk : j - ts.length with
+    | zero => simp [hk] at h; exact ⟨by omega, h.symm⟩
+    | succ n => simp [hk] at h
+
+theorem getElem?_lt {ts : List Timer} {t : Timer} {j : Nat} (h : ts[j]? = some t) : j < ts.length :=
+  (List.getElem?_eq_some_iff.mp h).1
+
+theorem dget_nil (p : Pattern) : dget [] p = none := rfl
+
+theorem ReqDead.of_nil {s : State} (h : s.patterns = []) (r : Nat) : ReqDead s r := by
+  intro i t _ _; rw [h]; simp [dget]
+
+theorem inv_entry {s s' : State} {e : Ev} (hI : Inv s) (h : Shape s e s') :
+    ∀ (p : Pattern) (i : Nat), dget s'.patterns p = some i → ∃ t, s'.timers[i]? = some t ∧ t.pattern = p := by
+  cases h with
+  | same | advance | setResend | bump | tx => exact hI.entry
+  | openLink | drop => intro p i h; simp [dget] at h
+  | armTx l hl pk ex T hex hnr =>
+    intro p i h
+    simp only [dget_dset] at h
+    split at h
+    · cases h; subst_vars; exact ⟨mkTimer s pk (pk.header :: ex) T s.nextReq, by simp, rfl⟩
+    · obtain ⟨t, ht, hp⟩ := hI.entry p i h
+      exact ⟨t, by rw [List.getElem?_append_left (getElem?_lt ht)]; exact ht, hp⟩
+  | cancel hh d p0 i0 hp hne hi =>
+    intro p i h
+    simp only [dget_ddel] at h
+    split at h
+    · cases h
+    · obtain ⟨t, ht, hpp⟩ := hI.entry p i h
+      obtain ⟨t', ht', hs⟩ := (tsSim_modify s.timers i0 cancelT sameButSt_cancelT).getElem? ht
+      exact ⟨t', ht', hs.2.1.trans hpp⟩
+  | expire i0 t0 ht0 ha hd =>
+    intro p i h
+    obtain ⟨t, ht, hpp⟩ := hI.entry p i h
+    obtain ⟨t', ht', hs⟩ := (tsSim_modify s.timers i0 (setSt .expired) (sameButSt_setSt _)).getElem? ht
+    exact ⟨t', ht', hs.2.1.trans hpp⟩
+  | runNoop i0 t0 ht0 he hn =>
+    intro p i h
+    obtain ⟨t, ht, hpp⟩ := hI.entry p i h
+    obtain ⟨t', ht', hs⟩ := (tsSim_modify s.timers i0 (setSt .done) (sameButSt_setSt _)).getElem? ht
+    exact ⟨t', ht', hs.2.1.trans hpp⟩
+  | runRetry i0 t0 l ht0 he hl hent =>
+    intro p i h
+    simp only [dget_dset] at h
+    split at h
+    · cases h; subst_vars
+      refine ⟨mkTimer s t0.pk t0.pattern t0.interval t0.req, ?_, rfl⟩
+      rw [List.getElem?_append_right (by simp)]; simp
+    · obtain ⟨t, ht, hpp⟩ := hI.entry p i h
+      obtain ⟨t', ht', hs⟩ := (tsSim_modify s.timers i0 (setSt .done) (sameButSt_setSt _)).getElem? ht
+      exact ⟨t', by rw [List.getElem?_append_left (getElem?_lt ht')]; exact ht', hs.2.1.trans hpp⟩
+
+theorem sim_expire (s : State) (i : Nat) : TsSim s.timers (s.timers.modify i (setSt .expired)) :=
+  tsSim_modify _ _ _ (sameButSt_setSt _)
+theorem sim_done (s : State) (i : Nat) : TsSim s.timers (s.timers.modify i (setSt .done)) :=
+  tsSim_modify _ _ _ (sameButSt_setSt _)
+theorem sim_cancel (s : State) (i : Nat) : TsSim s.timers (s.timers.modify i cancelT) :=
+  tsSim_modify _ _ _ sameButSt_cancelT
+
+theorem inv_treq {s s' : State} {e : Ev} (hI : Inv s) (h : Shape s e s') :
+    ∀ (i : Nat) (t : Timer), s'.timers[i]? = some t → t.req < s'.nextReq := by
+  have sim : ∀ {ts' : List Timer}, TsSim s.timers ts' → ∀ (i : Nat) (t : Timer), ts'[i]? = some t → t.req < s.nextReq := by
+    intro ts' hs i t ht
+    obtain ⟨t0, ht0, hsb⟩ := hs.2 i t ht
+    rw [hsb.2.2.2.2]; exact hI.treq i t0 ht0
+  cases h with
+  | same | advance | setResend => exact hI.treq
+  | bump | tx => intro i t ht; exact Nat.lt_succ_of_lt (hI.treq i t ht)
+  | openLink | drop => exact sim (tsSim_cancelAll _ _)
+  | armTx l hl pk ex T hex hnr =>
+    intro i t ht
+    rcases getElem?_snoc ht with h1 | ⟨_, h1⟩
+    · exact Nat.lt_succ_of_lt (hI.treq i t h1)
+    · subst h1; exact Nat.lt_succ_self _
+  | cancel => exact sim (sim_cancel s _)
+  | expire => exact sim (sim_expire s _)
+  | runNoop => exact sim (sim_done s _)
+  | runRetry i0 t0 l ht0 he hl hent =>
+    intro i t ht
+    rcases getElem?_snoc ht with h1 | ⟨_, h1⟩
+    · exact sim (sim_done s i0) i t h1
+    · subst h1; exact hI.treq i0 t0 ht0
+
+theorem inv_lreq {s s' : State} {e : Ev} (hI : Inv s) (h : Shape s e s') :
+    ∀ tx ∈ s'.log, tx.req < s'.nextReq := by
+  cases h with
+  | same | advance | setResend | openLink | drop | cancel | expire | runNoop => exact hI.lreq
+  | bump => intro tx htx; exact Nat.lt_succ_of_lt (hI.lreq tx htx)
+  | tx | armTx =>
+    intro tx htx
+    rcases List.mem_cons.mp htx with h1 | h1
+    · subst h1; exact Nat.lt_succ_self _
+    · exact Nat.lt_succ_of_lt (hI.lreq tx h1)
+  | runRetry i0 t0 l ht0 he hl hent =>
+    intro tx htx
+    rcases List.mem_cons.mp htx with h1 | h1
+    · subst h1; exact hI.treq i0 t0 ht0
+    · exact hI.lreq tx h1
+
+theorem inv_chain {s s' : State} {e : Ev} (hI : Inv s) (h : Shape s e s') :
+    ∀ (i j : Nat) (ti tj : Timer), s'.timers[i]? = some ti → s'.timers[j]? = some tj → ti.req = tj.req →
+      ti.pattern = tj.pattern ∧ ti.pk = tj.pk ∧ ti.interval = tj.interval := by
+  have sim : ∀ {ts' : List Timer}, TsSim s.timers ts' → ∀ (i j : Nat) (ti tj : Timer), ts'[i]? = some ti →
+      ts'[j]? = some tj → ti.req = tj.req → ti.pattern = tj.pattern ∧ ti.pk = tj.pk ∧ ti.interval = tj.interval := by
+    intro ts' hs i j ti tj hi hj hreq
+    obtain ⟨a, ha, hsa⟩ := hs.2 i ti hi
+    obtain ⟨b, hb, hsb⟩ := hs.2 j tj hj
+    have := hI.chain i j a b ha hb (by rw [← hsa.2.2.2.2, ← hsb.2.2.2.2]; exact hreq)
+    exact ⟨by rw [hsa.2.1, hsb.2.1]; exact this.1, by rw [hsa.1, hsb.1]; exact this.2.1,
+      by rw [hsa.2.2.1, hsb.2.2.1]; exact this.2.2⟩
+  cases h with
+  | same | advance | setResend | bump | tx => exact hI.chain
+  | openLink | drop => exact sim (tsSim_cancelAll _ _)
+  | cancel => exact sim (sim_cancel s _)
+  | expire => exact sim (sim_expire s _)
+  | runNoop => exact sim (sim_done s _)
+  | armTx l hl pk ex T hex hnr =>
+    intro i j ti tj hi hj hreq
+    rcases getElem?_snoc hi with h1 | ⟨_, h1⟩ <;> rcases getElem?_snoc hj with h2 | ⟨_, h2⟩
+    · exact hI.chain i j ti tj h1 h2 hreq
+    · subst h2; have := hI.treq i ti h1; simp [mkTimer] at hreq; omega
+    · subst h1; have := hI.treq j tj h2; simp [mkTimer] at hreq; omega
+    · subst h1; subst h2; exact ⟨rfl, rfl, rfl⟩
+  | runRetry i0 t0 l ht0 he hl hent =>
+    intro i j ti tj hi hj hreq
+    have back : ∀ (k : Nat) (t : Timer), (s.timers.modify i0 (setSt .done))[k]? = some t →
+        ∃ a, s.timers[k]? = some a ∧ SameButSt a t := (sim_done s i0).2
+    rcases getElem?_snoc hi with h1 | ⟨_, h1⟩ <;> rcases getElem?_snoc hj with h2 | ⟨_, h2⟩
+    · exact sim (sim_done s i0) i j ti tj h1 h2 hreq
+    · subst h2
+      obtain ⟨a, ha, hsa⟩ := back i ti h1
+      have := hI.chain i i0 a t0 ha ht0 (by rw [← hsa.2.2.2.2]; exact hreq)
+      exact ⟨by rw [hsa.2.1]; exact this.1, by rw [hsa.1]; exact this.2.1, by rw [hsa.2.2.1]; exact this.2.2⟩
+    · subst h1
+      obtain ⟨b, hb, hsb⟩ := back j tj h2
+      have := hI.chain i0 j t0 b ht0 hb (by rw [← hsb.2.2.2.2]; exact hreq)
+      exact ⟨by rw [hsb.2.1]; exact this.1, by rw [hsb.1]; exact this.2.1, by rw [hsb.2.2.1]; exact this.2.2⟩
+    · subst h1; subst h2; exact ⟨rfl, rfl, rfl⟩
+
+theorem inv_linkFresh {s s' : State} {e : Ev} (hI : Inv s) (h : Shape s e s') :
+    (∀ l, s'.link = some l → l.sid < s'.nextSid ∧ l.sid ∉ s'.closed) ∧ (∀ x ∈ s'.closed, x < s'.nextSid) := by
+  cases h with
+  | same | advance | bump | tx | armTx | cancel | expire | runNoop | runRetry => exact ⟨hI.linkFresh, hI.closedLt⟩
+  | setResend nr l hl =>
+    refine ⟨?_, hI.closedLt⟩
+    intro l' hl'
+    simp only [Option.some.injEq] at hl'
+    subst hl'
+    exact hI.linkFresh l hl
+  | openLink nr =>
+    refine ⟨?_, fun x hx => Nat.lt_succ_of_lt (hI.closedLt x hx)⟩
+    intro l' hl'
+    simp only [Option.some.injEq] at hl'
+    subst hl'
+    exact ⟨Nat.lt_succ_self _, fun hm => Nat.lt_irrefl _ (hI.closedLt _ hm)⟩
+  | drop e he =>
+    refine ⟨by simp, ?_⟩
+    intro x hx
+    simp only at hx ⊢
+    split at hx
+    · next l hl =>
+      simp only [List.mem_cons] at hx
+      rcases hx with rfl | hx
+      · exact (hI.linkFresh l hl).1
+      · exact hI.closedLt x hx
+    · exact hI.closedLt x hx
+
+theorem mkTx_onClosed {s : State} (hI : Inv s) {l : Link} (hl : s.link = some l) (pk : Pk) (req : Nat)
+    (retry : Option Nat) (due T : Nat) : (mkTx s l pk req retry due T).onClosed = false := by
+  simp only [mkTx, List.contains_eq_mem, decide_eq_false_iff_not]
+  exact (hI.linkFresh l hl).2
+
+theorem inv_noClosedTx {s s' : State} {e : Ev} (hI : Inv s) (h : Shape s e s') :
+    ∀ tx ∈ s'.log, tx.onClosed = false := by
+  cases h with
+  | same | advance | setResend | openLink | drop | bump | cancel | expire | runNoop => exact hI.noClosedTx
+  | tx e l hl pk T he =>
+    intro tx htx
+    rcases List.mem_cons.mp htx with h1 | h1
+    · subst h1; exact mkTx_onClosed hI hl ..
+    · exact hI.noClosedTx tx h1
+  | armTx l hl pk ex T hex hnr =>
+    intro tx htx
+    rcases List.mem_cons.mp htx with h1 | h1
+    · subst h1; exact mkTx_onClosed hI hl ..
+    · exact hI.noClosedTx tx h1
+  | runRetry i0 t0 l ht0 he hl hent =>
+    intro tx htx
+    rcases List.mem_cons.mp htx with h1 | h1
+    · subst h1; exact mkTx_onClosed hI hl ..
+    · exact hI.noClosedTx tx h1
+
+/-- a dead request stays dead, whatever happens -/
+theorem reqDead_shape {s s' : State} {e : Ev} (hI : Inv s) {r : Nat} (hr : r < s.nextReq) (hd : ReqDead s r)
+    (h : Shape s e s') : ReqDead s' r := by
+  have sim : ∀ {ts' : List Timer}, TsSim s.timers ts' → ∀ (i : Nat) (t : Timer), ts'[i]? = some t → t.req = r →
+      dget s.patterns t.pattern ≠ some i := by
+    intro ts' hs i t ht hreq
+    obtain ⟨t0, ht0, hsb⟩ := hs.2 i t ht
+    rw [hsb.2.1]; exact hd i t0 ht0 (by rw [← hsb.2.2.2.2]; exact hreq)
+  cases h with
+  | same | advance | setResend | bump | tx => exact hd
+  | openLink | drop => exact ReqDead.of_nil rfl r
+  | cancel hh d p0 i0 hp hne hi =>
+    intro i t ht hreq
+    simp only [dget_ddel]
+    split
+    · simp
+    · exact sim (sim_cancel s i0) i t ht hreq
+  | expire i0 => exact sim (sim_expire s i0)
+  | runNoop i0 => exact sim (sim_done s i0)
+  | armTx l hl pk ex T hex hnr =>
+    intro i t ht hreq
+    simp only [dget_dset]
+    rcases getElem?_snoc ht with h1 | ⟨_, h1⟩
+    · split
+      · have := getElem?_lt h1; simp; omega
+      · exact hd i t h1 hreq
+    · subst h1; simp [mkTimer] at hreq; omega
+  | runRetry i0 t0 l ht0 he hl hent =>
+    have hne : t0.req ≠ r := fun heq => hd i0 t0 ht0 heq hent
+    intro i t ht hreq
+    simp only [dget_dset]
+    rcases getElem?_snoc ht with h1 | ⟨_, h1⟩
+    · split
+      · have := getElem?_lt h1; simp at this ⊢; omega
+      · exact sim (sim_done s i0) i t h1 hreq
+    · subst h1; exact absurd hreq hne
+
+theorem inv_live {s s' : State} {e : Ev} (hI : Inv s) (h : Shape s e s') :
+    ∀ tx ∈ s'.log, ReqDead s' tx.req ∨ ∃ l, s'.link = some l ∧ tx.sid = l.sid := by
+  have old : ∀ tx ∈ s.log, s'.link = s.link → ReqDead s' tx.req ∨ ∃ l, s'.link = some l ∧ tx.sid = l.sid := by
+    intro tx htx hlk
+    rcases hI.live tx htx with h1 | h1
+    · exact Or.inl (reqDead_shape hI (hI.lreq tx htx) h1 h)
+    · right; rw [hlk]; exact h1
+  cases h with
+  | same | advance | bump | cancel | expire | runNoop => exact fun tx htx => old tx htx rfl
+  | openLink | drop => exact fun tx _ => Or.inl (ReqDead.of_nil rfl _)
+  | setResend nr l hl =>
+    intro tx htx
+    rcases hI.live tx htx with h1 | ⟨l', hl', hs⟩
+    · exact Or.inl h1
+    · right; rw [hl] at hl'; cases hl'; exact ⟨_, rfl, hs⟩
+  | tx e l hl pk T he =>
+    intro tx htx
+    rcases List.mem_cons.mp htx with h1 | h1
+    · subst h1; exact Or.inr ⟨l, hl, rfl⟩
+    · exact old tx h1 rfl
+  | armTx l hl pk ex T hex hnr =>
+    intro tx htx
+    rcases List.mem_cons.mp htx with h1 | h1
+    · subst h1; exact Or.inr ⟨l, hl, rfl⟩
+    · exact old tx h1 rfl
+  | runRetry i0 t0 l ht0 he hl hent =>
+    intro tx htx
+    rcases List.mem_cons.mp htx with h1 | h1
+    · subst h1; exact Or.inr ⟨l, hl, rfl⟩
+    · exact old tx h1 rfl
+
+theorem find?_mem_req {log : List Tx} {r : Nat} {tx : Tx} (h : log.find? (fun x => x.req == r) = some tx) :
+    tx ∈ log ∧ tx.req = r := by
+  refine ⟨List.mem_of_find?_eq_some h, ?_⟩
+  have := List.find?_some h
+  simpa using this
+
+theorem inv_sameReq {s s' : State} {e : Ev} (hI : Inv s) (h : Shape s e s') :
+    ∀ a ∈ s'.log, ∀ b ∈ s'.log, a.req = b.req → a.sid = b.sid ∧ a.pk = b.pk ∧ a.interval = b.interval := by
+  have fresh : ∀ (x : Tx), x.req = s.nextReq → ∀ a ∈ x :: s.log, ∀ b ∈ x :: s.log, a.req = b.req →
+      a.sid = b.sid ∧ a.pk = b.pk ∧ a.interval = b.interval := by
+    intro x hx a ha b hb hreq
+    rcases List.mem_cons.mp ha with h1 | h1 <;> rcases List.mem_cons.mp hb with h2 | h2
+    · subst h1; subst h2; exact ⟨rfl, rfl, rfl⟩
+    · subst h1; have := hI.lreq b h2; omega
+    · subst h2; have := hI.lreq a h1; omega
+    · exact hI.sameReq a h1 b h2 hreq
+  cases h with
+  | same | advance | setResend | openLink | drop | bump | cancel | expire | runNoop => exact hI.sameReq
+  | tx e l hl pk T he => exact fresh _ rfl
+  | armTx l hl pk ex T hex hnr => exact fresh _ rfl
+  | runRetry i0 t0 l ht0 he hl hent =>
+    obtain ⟨tx0, hf, _, hpk, hint⟩ := hI.last _ i0 t0 hent ht0
+    obtain ⟨hmem, hreq0⟩ := find?_mem_req hf
+    have key : ∀ b ∈ s.log, b.req = t0.req → l.sid = b.sid ∧ t0.pk = b.pk ∧ t0.interval = b.interval := by
+      intro b hb hbr
+      have h3 := hI.sameReq b hb tx0 hmem (by rw [hbr, hreq0])
+      refine ⟨?_, by rw [h3.2.1]; exact hpk.symm, by rw [h3.2.2]; exact hint.symm⟩
+      rcases hI.live b hb with h4 | ⟨l', hl', hs⟩
+      · exact absurd hent (h4 i0 t0 ht0 hbr.symm)
+      · rw [hl] at hl'; cases hl'; exact hs.symm
+    intro a ha b hb hreq
+    rcases List.mem_cons.mp ha with h1 | h1 <;> rcases List.mem_cons.mp hb with h2 | h2
+    · subst h1; subst h2; exact ⟨rfl, rfl, rfl⟩
+    · subst h1; exact key b h2 hreq.symm
+    · subst h2; have := key a h1 hreq; exact ⟨this.1.symm, this.2.1.symm, this.2.2.symm⟩
+    · exact hI.sameReq a h1 b h2 hreq
+
+theorem find?_cons_ne {x : Tx} {log : List Tx} {r : Nat} (h : x.req ≠ r) :
+    (x :: log).find? (fun y => y.req == r) = log.find? (fun y => y.req == r) := by
+  simp [List.find?_cons, h]
+
+theorem find?_cons_eq {x : Tx} {log : List Tx} {r : Nat} (h : x.req = r) :
+    (x :: log).find? (fun y => y.req == r) = some x := by
+  simp [List.find?_cons, h]
+
+theorem inv_last {s s' : State} {e : Ev} (hI : Inv s) (h : Shape s e s') :
+    ∀ (p : Pattern) (i : Nat) (t : Timer), dget s'.patterns p = some i → s'.timers[i]? = some t →
+      ∃ tx, s'.log.find? (fun x => x.req == t.req) = some tx ∧ tx.time + t.interval = t.deadline ∧ tx.pk = t.pk ∧
+        tx.interval = t.interval := by
+  have sim : ∀ {ts' : List Timer}, TsSim s.timers ts' → ∀ (p : Pattern) (i : Nat) (t : Timer),
+      dget s.patterns p = some i → ts'[i]? = some t →
+      ∃ tx, s.log.find? (fun x => x.req == t.req) = some tx ∧ tx.time + t.interval = t.deadline ∧ tx.pk = t.pk ∧
+        tx.interval = t.interval := by
+    intro ts' hs p i t hp ht
+    obtain ⟨t0, ht0, hsb⟩ := hs.2 i t ht
+    obtain ⟨tx, h1, h2, h3, h4⟩ := hI.last p i t0 hp ht0
+    exact ⟨tx, by rw [hsb.2.2.2.2]; exact h1, by rw [hsb.2.2.1, hsb.2.2.2.1]; exact h2, by rw [hsb.1]; exact h3,
+      by rw [hsb.2.2.1]; exact h4⟩
+  cases h with
+  | same | advance | setResend | bump => exact hI.last
+  | openLink | drop => intro p i t h; simp [dget] at h
+  | tx e l hl pk T he =>
+    intro p i t hp ht
+    obtain ⟨tx, h1, h2⟩ := hI.last p i t hp ht
+    refine ⟨tx, ?_, h2⟩
+    rw [find?_cons_ne (by have := hI.treq i t ht; simp [mkTx]; omega)]; exact h1
+  | cancel hh d p0 i0 hp0 hne hi =>
+    intro p i t hp ht
+    simp only [dget_ddel] at hp
+    split at hp
+    · cases hp
+    · exact sim (sim_cancel s i0) p i t hp ht
+  | expire i0 => exact sim (sim_expire s i0)
+  | runNoop i0 => exact sim (sim_done s i0)
+  | armTx l hl pk ex T hex hnr =>
+    intro p i t hp ht
+    simp only [dget_dset] at hp
+    split at hp
+    · cases hp
+      have : t = mkTimer s pk (pk.header :: ex) T s.nextReq := by simpa using ht.symm
+      subst this
+      exact ⟨_, find?_cons_eq rfl, rfl, rfl, rfl⟩
+    · obtain ⟨t1, ht1, _⟩ := hI.entry p i hp
+      have ht' : s.timers[i]? = some t := by
+        rwa [List.getElem?_append_left (getElem?_lt ht1)] at ht
+      obtain ⟨tx, h1, h2⟩ := hI.last p i t hp ht'
+      refine ⟨tx, ?_, h2⟩
+      rw [find?_cons_ne (by have := hI.treq i t ht'; simp [mkTx]; omega)]; exact h1
+  | runRetry i0 t0 l ht0 he hl hent =>
+    intro p i t hp ht
+    simp only [dget_dset] at hp
+    split at hp
+    · cases hp
+      have : t = mkTimer s t0.pk t0.pattern t0.interval t0.req := by
+        rw [List.getElem?_append_right (by simp)] at ht; simpa using ht.symm
+      subst this
+      exact ⟨_, find?_cons_eq rfl, rfl, rfl, rfl⟩
+    · next hpne =>
+      obtain ⟨t1, ht1, hp1⟩ := hI.entry p i hp
+      have hlt : i < (s.timers.modify i0 (setSt .done)).length := by
+        rw [List.length_modify]; exact getElem?_lt ht1
+      rw [List.getElem?_append_left hlt] at ht
+      obtain ⟨t2, ht2, hsb⟩ := (sim_done s i0).2 i t ht
+      rw [ht1] at ht2; cases ht2
+      have hreq : t1.req ≠ t0.req := by
+        intro heq
+        have := (hI.chain i i0 t1 t0 ht1 ht0 heq).1
+        exact hpne (by rw [← this, hp1])
+      obtain ⟨tx, h1, h2⟩ := sim (sim_done s i0) p i t hp ht
+      refine ⟨tx, ?_, h2⟩
+      rw [find?_cons_ne (by simp only [mkTx]; rw [hsb.2.2.2.2]; exact fun h => hreq h.symm)]; exact h1
+
+theorem inv_expiredDue {s s' : State} {e : Ev} (hI : Inv s) (h : Shape s e s') :
+    ∀ (i : Nat) (t : Timer), s'.timers[i]? = some t → t.st = .expired → t.deadline ≤ s'.now := by
+  have cancel_back : ∀ (ts : List Timer) (d : Dict), (∀ (i : Nat) (t : Timer), ts[i]? = some t → t.st = .expired → t.deadline ≤ s.now) →
+      ∀ (i : Nat) (t : Timer), (cancelAll ts d)[i]? = some t → t.st = .expired → t.deadline ≤ s.now := by
+    intro ts d
+    induction d generalizing ts with
+    | nil => intro h; exact h
+    | cons e r ih =>
+      obtain ⟨p, k⟩ := e
+      intro h
+      simp only [cancelAll]
+      apply ih
+      intro i t ht hst
+      rw [List.getElem?_modify] at ht
+      cases hj : ts[i]? with
+      | none => simp [hj] at ht
+      | some t1 =>
+        simp only [hj, Option.map_eq_map, Option.map_some, Option.some.injEq] at ht
+        subst ht
+        by_cases hki : k = i
+        · simp only [hki, if_true] at hst ⊢
+          unfold cancelT at hst ⊢
+          split at hst
+          · cases hst
+          · next hna => simp only [hna, if_false]; exact h i t1 hj hst
+        · simp only [hki, if_false] at hst ⊢
+          exact h i t1 hj hst
+  have modify_back : ∀ (k : Nat) (f : Timer → Timer), (∀ t, (f t).deadline = t.deadline) →
+      (∀ t, (f t).st = .expired → t.st = .expired) →
+      ∀ (i : Nat) (t : Timer), (s.timers.modify k f)[i]? = some t → t.st = .expired → t.deadline ≤ s.now := by
+    intro k f hfd hfs i t ht hst
+    rw [List.getElem?_modify] at ht
+    cases hj : s.timers[i]? with
+    | none => simp [hj] at ht
+    | some t1 =>
+      simp only [hj, Option.map_eq_map, Option.map_some, Option.some.injEq] at ht
+      subst ht
+      by_cases hki : k = i
+      · simp only [hki, if_true] at hst ⊢
+        rw [hfd]; exact hI.expiredDue i t1 hj (hfs t1 hst)
+      · simp only [hki, if_false] at hst ⊢
+        exact hI.expiredDue i t1 hj hst
+  have cancelT_st : ∀ t, (cancelT t).st = .expired → t.st = .expired := by
+    intro t h; unfold cancelT at h; split at h
+    · cases h
+    · exact h
+  have cancelT_dl : ∀ t, (cancelT t).deadline = t.deadline := by
+    intro t; unfold cancelT; split <;> rfl
+  cases h with
+  | same | setResend | bump | tx => exact hI.expiredDue
+  | advance dt => intro i t ht hst; exact Nat.le_trans (hI.expiredDue i t ht hst) (Nat.le_add_right _ _)
+  | openLink | drop => exact cancel_back _ _ hI.expiredDue
+  | cancel hh d p0 i0 hp0 hne hi => exact modify_back i0 cancelT cancelT_dl cancelT_st
+  | runNoop i0 => exact modify_back i0 (setSt .done) (fun _ => rfl) (fun t h => by simp [setSt] at h)
+  | expire i0 t0 ht0 ha hd =>
+    intro i t ht hst
+    rw [List.getElem?_modify] at ht
+    cases hj : s.timers[i]? with
+    | none => simp [hj] at ht
+    | some t1 =>
+      simp only [hj, Option.map_eq_map, Option.map_some, Option.some.injEq] at ht
+      subst ht
+      by_cases hii : i0 = i
+      · subst hii; rw [ht0] at hj; cases hj; simpa [setSt] using hd
+      · simp only [hii, if_false] at hst ⊢; exact hI.expiredDue i t1 hj hst
+  | armTx l hl pk ex T hex hnr =>
+    intro i t ht hst
+    rcases getElem?_snoc ht with h1 | ⟨_, h1⟩
+    · exact hI.expiredDue i t h1 hst
+    · subst h1; simp [mkTimer] at hst
+  | runRetry i0 t0 l ht0 he hl hent =>
+    intro i t ht hst
+    rcases getElem?_snoc ht with h1 | ⟨_, h1⟩
+    · exact modify_back i0 (setSt .done) (fun _ => rfl) (fun t h => by simp [setSt] at h) i t h1 hst
+    · subst h1; simp [mkTimer] at hst
+
+theorem inv_spaced {s s' : State} {e : Ev} (hI : Inv s) (h : Shape s e s') : Spaced s'.log := by
+  cases h with
+  | same | advance | setResend | openLink | drop | bump | cancel | expire | runNoop => exact hI.spaced
+  | tx e l hl pk T he =>
+    exact ⟨by simp [mkTx], fun _ x hx => by have := hI.lreq x hx; simp only [mkTx]; omega, hI.spaced⟩
+  | armTx l hl pk ex T hex hnr =>
+    exact ⟨by simp [mkTx], fun _ x hx => by have := hI.lreq x hx; simp only [mkTx]; omega, hI.spaced⟩
+  | runRetry i0 t0 l ht0 he hl hent =>
+    refine ⟨fun _ => ?_, by simp [mkTx], hI.spaced⟩
+    obtain ⟨tx0, hf, htime, hpk, hint⟩ := hI.last _ i0 t0 hent ht0
+    obtain ⟨hmem, hreq0⟩ := find?_mem_req hf
+    refine ⟨tx0, hf, htime, hI.expiredDue i0 t0 ht0 he, hpk, ?_, hint⟩
+    rcases hI.live tx0 hmem with h4 | ⟨l', hl', hs⟩
+    · exact absurd hent (h4 i0 t0 ht0 hreq0.symm)
+    · rw [hl] at hl'; cases hl'; exact hs
+
+theorem inv_keyNe {s s' : State} {e : Ev} (hI : Inv s) (h : Shape s e s') :
+    ∀ (p : Pattern) (i : Nat), dget s'.patterns p = some i → p ≠ [] := by
+  cases h with
+  | same | advance | setResend | bump | tx | expire | runNoop => exact hI.keyNe
+  | openLink | drop => intro p i h; simp [dget] at h
+  | armTx l hl pk ex T hex hnr =>
+    intro p i h
+    simp only [dget_dset] at h
+    split at h
+    · subst_vars; simp
+    · exact hI.keyNe p i h
+  | cancel hh d p0 i0 hp hne hi =>
+    intro p i h
+    simp only [dget_ddel] at h
+    split at h
+    · cases h
+    · exact hI.keyNe p i h
+  | runRetry i0 t0 l ht0 he hl hent =>
+    intro p i h
+    simp only [dget_dset] at h
+    split at h
+    · subst_vars; exact hI.keyNe _ _ hent
+    · exact hI.keyNe p i h
+
+theorem inv_lsid {s s' : State} {e : Ev} (hI : Inv s) (h : Shape s e s') : ∀ tx ∈ s'.log, tx.sid < s'.nextSid := by
+  cases h with
+  | same | advance | setResend | drop | bump | cancel | expire | runNoop => exact hI.lsid
+  | openLink => intro tx htx; exact Nat.lt_succ_of_lt (hI.lsid tx htx)
+  | tx e l hl pk T he =>
+    intro tx htx
+    rcases List.mem_cons.mp htx with h1 | h1
+    · subst h1; exact (hI.linkFresh l hl).1
+    · exact hI.lsid tx h1
+  | armTx l hl pk ex T hex hnr =>
+    intro tx htx
+    rcases List.mem_cons.mp htx with h1 | h1
+    · subst h1; exact (hI.linkFresh l hl).1
+    · exact hI.lsid tx h1
+  | runRetry i0 t0 l ht0 he hl hent =>
+    intro tx htx
+    rcases List.mem_cons.mp htx with h1 | h1
+    · subst h1; exact (hI.linkFresh l hl).1
+    · exact hI.lsid tx h1
+
+theorem inv_shape {s s' : State} {e : Ev} (hI : Inv s) (h : Shape s e s') : Inv s' :=
+  { entry := inv_entry hI h, treq := inv_treq hI h, lreq := inv_lreq hI h, chain := inv_chain hI h,
+    linkFresh := (inv_linkFresh hI h).1, closedLt := (inv_linkFresh hI h).2, noClosedTx := inv_noClosedTx hI h,
+    live := inv_live hI h, sameReq := inv_sameReq hI h, last := inv_last hI h, expiredDue := inv_expiredDue hI h,
+    spaced := inv_spaced hI h, keyNe := inv_keyNe hI h, lsid := inv_lsid hI h }
+
+theorem inv_stepT {c : Cfg} (hc : c.Repaired) {s : State} (hI : Inv s) (e : Ev) : Inv (stepT c s e) :=
+  inv_shape hI (step_shape hc s e)
+
+theorem inv_run {c : Cfg} (hc : c.Repaired) {s : State} (hI : Inv s) (evs : List Ev) : Inv (run c s evs) := by
+  induction evs generalizing s with
+  | nil => exact hI
+  | cons e r ih => exact ih (inv_stepT hc hI e)
+
+theorem run_append (c : Cfg) (s : State) (a b : List Ev) : run c s (a ++ b) = run c (run c s a) b := by
+  simp [run, List.foldl_append]
+
+theorem run_cons (c : Cfg) (s : State) (e : Ev) (r : List Ev) : run c s (e :: r) = run c (stepT c s e) r := rfl
+
+/-! ## consequences for whole runs -/
+
+theorem shape_nextReq_le {s s' : State} {e : Ev} (h : Shape s e s') : s.nextReq ≤ s'.nextReq := by
+  cases h <;> simp
+
+theorem dead_shape_log {s s' : State} {e : Ev} {r : Nat} (hr : r < s.nextReq) (hd : ReqDead s r)
+    (h : Shape s e s') : ∀ tx ∈ s'.log, tx.req = r → tx ∈ s.log := by
+  cases h with
+  | same | advance | setResend | openLink | drop | bump | cancel | expire | runNoop => exact fun tx h _ => h
+  | tx e l hl pk T he =>
+    intro tx htx hreq
+    rcases List.mem_cons.mp htx with h1 | h1
+    · subst h1; simp [mkTx] at hreq; omega
+    · exact h1
+  | armTx l hl pk ex T hex hnr =>
+    intro tx htx hreq
+    rcases List.mem_cons.mp htx with h1 | h1
+    · subst h1; simp [mkTx] at hreq; omega
+    · exact h1
+  | runRetry i0 t0 l ht0 he hl hent =>
+    intro tx htx hreq
+    rcases List.mem_cons.mp htx with h1 | h1
+    · subst h1; exact absurd hent (hd i0 t0 ht0 hreq)
+    · exact h1
+
+/-- once no timer of request `r` is registered, `r` is never transmitted again -/
+theorem dead_run {c : Cfg} (hc : c.Repaired) {s : State} (hI : Inv s) {r : Nat} (hr : r < s.nextReq)
+    (hd : ReqDead s r) (evs : List Ev) :
+    ReqDead (run c s evs) r ∧ ∀ tx ∈ (run c s evs).log, tx.req = r → tx ∈ s.log := by
+  induction evs generalizing s with
+  | nil => exact ⟨hd, fun tx h _ => h⟩
+  | cons e rest ih =>
+    have hsh := step_shape hc s e
+    have hI' := inv_shape hI hsh
+    have hd' := reqDead_shape hI hr hd hsh
+    have hr' : r < (stepT c s e).nextReq := Nat.lt_of_lt_of_le hr (shape_nextReq_le hsh)
+    obtain ⟨h1, h2⟩ := ih hI' hr' hd'
+    exact ⟨h1, fun tx htx hreq => dead_shape_log hr hd hsh tx (h2 tx htx hreq) hreq⟩
+
+theorem inv_reach {c : Cfg} (hc : c.Repaired) (evs : List Ev) : Inv (run c init evs) := inv_run hc inv_init evs
+
+/-- after a packet whose longest registered prefix is `p`, every request with pattern `p` is dead -/
+theorem answered_dead {c : Cfg} (hc : c.Repaired) {s : State} (hI : Inv s) (h : Nat) (d : List Nat)
+    {j : Nat} {t : Timer} (ht : s.timers[j]? = some t) (hp : LongestPending s.patterns (h :: d) t.pattern)
+    (hne : t.pattern ≠ []) : ReqDead (stepT c s (.recv h d)) t.req := by
+  have hlm := longestMatch_of_longestPending hp hne
+  have hsome : (dget s.patterns t.pattern).isSome := (dget_isSome_iff _ _).mpr hp.1
+  obtain ⟨i, hi⟩ := Option.isSome_iff_exists.mp hsome
+  have hpos : t.pattern.length > 0 := List.length_pos_iff.mpr hne
+  have hstep : stepT c s (.recv h d) = { s with timers := s.timers.modify i cancelT, patterns := ddel s.patterns t.pattern } := by
+    simp only [stepT, step, checkForAnswers, hlm, hpos, if_true, hi]
+  rw [hstep]
+  intro k tk htk hreq
+  obtain ⟨t0, ht0, hsb⟩ := (sim_cancel s i).2 k tk htk
+  have hpat : t0.pattern = t.pattern := (hI.chain k j t0 t ht0 ht (by rw [← hsb.2.2.2.2]; exact hreq)).1
+  simp only [dget_ddel, hsb.2.1, hpat, if_true]
+  simp
+
+/-- when the link is closed, fails or is replaced, every request made so far is dead -/
+theorem session_end_dead {c : Cfg} (hc : c.Repaired) (s : State) (e : Ev)
+    (he : e = .closeRest ∨ e = .linkError ∨ ∃ nr, e = .openLink nr) (r : Nat) : ReqDead (stepT c s e) r := by
+  apply ReqDead.of_nil
+  rcases he with rfl | rfl | ⟨nr, rfl⟩
+  · simp [stepT, step, forget, hc.closeClears]
+  · simp [stepT, step, forget, hc.errorClears]
+  · simp [stepT, step, forget, hc.openClears]
+
+/-! ## retried until answered -/
+
+/-- timer `j` is the registered, still live retry timer of request `r` (packet `pk`, pattern `p`, timeout `T`)
+on an open link -/
+def Sched (s : State) (r : Nat) (pk : Pk) (p : Pattern) (T : Nat) (j : Nat) : Prop :=
+  ∃ t l, s.timers[j]? = some t ∧ dget s.patterns p = some j ∧ s.link = some l ∧
+    t.req = r ∧ t.pk = pk ∧ t.pattern = p ∧ t.interval = T ∧ (t.st = .armed ∨ t.st = .expired)
+
+/-- steps that do not end the request: the link is not closed / lost / replaced, the same pattern is not requested
+again (which would supersede the registration), and no packet arrives whose longest registered prefix is `p` -/
+def Quiet (s : State) (p : Pattern) : Ev → Prop
+  | .closeRest | .linkError | .openLink _ => False
+  | .send pk ex _ => pk.header :: ex ≠ p
+  | .recv h d => ¬ LongestPending s.patterns (h :: d) p
+  | _ => True
+
+theorem getElem?_modify_ne {ts : List Timer} {i j : Nat} (f : Timer → Timer) (h : i ≠ j) :
+    (ts.modify i f)[j]? = ts[j]? := by
+  rw [List.getElem?_modify]; simp [h]
+
+theorem getElem?_modify_eq {ts : List Timer} {i : Nat} {t : Timer} (f : Timer → Timer) (h : ts[i]? = some t) :
+    (ts.modify i f)[i]? = some (f t) := by
+  rw [List.getElem?_modify]; simp [h]
+
+theorem sched_shape {s s' : State} {e : Ev} (hI : Inv s) {r : Nat} {pk : Pk} {p : Pattern} {T j : Nat}
+    (hs : Sched s r pk p T j) (hq : Quiet s p e) (h : Shape s e s') : ∃ j', Sched s' r pk p T j' := by
+  obtain ⟨t, l, ht, hent, hl, hreq, hpk, hpat, hint, hst⟩ := hs
+  cases h with
+  | same | advance | bump | tx => exact ⟨j, t, l, ht, hent, hl, hreq, hpk, hpat, hint, hst⟩
+  | setResend nr l' hl' =>
+    rw [hl] at hl'; cases hl'
+    exact ⟨j, t, _, ht, hent, rfl, hreq, hpk, hpat, hint, hst⟩
+  | openLink nr => exact absurd hq (by simp [Quiet])
+  | drop e he => rcases he with rfl | rfl <;> exact absurd hq (by simp [Quiet])
+  | armTx l' hl' pk' ex T' hex hnr =>
+    refine ⟨j, t, l, ?_, ?_, hl, hreq, hpk, hpat, hint, hst⟩
+    · rw [List.getElem?_append_left (getElem?_lt ht)]; exact ht
+    · rw [dget_dset]; simp only [Quiet] at hq; simp [hq, hent]
+  | cancel hh d p0 i0 hp0 hne hi =>
+    have hpp : p0 ≠ p := by
+      intro heq; subst heq; exact hq hp0
+    obtain ⟨t1, ht1, hp1⟩ := hI.entry p0 i0 hi
+    have hij : i0 ≠ j := by
+      intro heq; subst heq; rw [ht] at ht1; cases ht1; exact hpp (hp1.symm.trans hpat)
+    refine ⟨j, t, l, ?_, ?_, hl, hreq, hpk, hpat, hint, hst⟩
+    · rw [getElem?_modify_ne _ hij]; exact ht
+    · rw [dget_ddel]; simp [hpp, hent]
+  | expire i0 t0 ht0 ha hd =>
+    by_cases hij : i0 = j
+    · subst hij
+      exact ⟨i0, setSt .expired t, l, getElem?_modify_eq _ ht, hent, hl, hreq, hpk, hpat, hint, Or.inr rfl⟩
+    · exact ⟨j, t, l, by rw [getElem?_modify_ne _ hij]; exact ht, hent, hl, hreq, hpk, hpat, hint, hst⟩
+  | runNoop i0 t0 ht0 he hn =>
+    have hij : i0 ≠ j := by
+      intro heq; subst heq; rw [ht] at ht0; cases ht0
+      rcases hn with hn | hn
+      · rw [hl] at hn; cases hn
+      · exact hn (by rw [hpat]; exact hent)
+    exact ⟨j, t, l, by rw [getElem?_modify_ne _ hij]; exact ht, hent, hl, hreq, hpk, hpat, hint, hst⟩
+  | runRetry i0 t0 l' ht0 he hl' hent0 =>
+    by_cases hij : i0 = j
+    · subst hij
+      rw [ht] at ht0; cases ht0
+      refine ⟨s.timers.length, mkTimer s t.pk t.pattern t.interval t.req, l, ?_, ?_, hl, hreq, hpk, hpat, hint, Or.inl rfl⟩
+      · rw [List.getElem?_append_right (by simp)]; simp
+      · rw [dget_dset]; simp [hpat]
+    · have hpp : t0.pattern ≠ p := by
+        intro heq; rw [heq, hent] at hent0; cases hent0; exact hij rfl
+      refine ⟨j, t, l, ?_, ?_, hl, hreq, hpk, hpat, hint, hst⟩
+      · rw [List.getElem?_append_left (by rw [List.length_modify]; exact getElem?_lt ht), getElem?_modify_ne _ hij]
+        exact ht
+      · rw [dget_dset]; simp [hpp, hent]
+
+/-- the latest transmission of a scheduled request went to the open link, one timeout before the timer's deadline -/
+theorem sched_last {s : State} (hI : Inv s) {r : Nat} {pk : Pk} {p : Pattern} {T j : Nat} (hs : Sched s r pk p T j) :
+    ∃ t l last, s.timers[j]? = some t ∧ s.link = some l ∧ s.log.find? (fun x => x.req == r) = some last ∧
+      last.pk = pk ∧ last.sid = l.sid ∧ last.interval = T ∧ last.time + T = t.deadline := by
+  obtain ⟨t, l, ht, hent, hl, hreq, hpk, hpat, hint, hst⟩ := hs
+  obtain ⟨tx, hf, htime, hpk', hint'⟩ := hI.last p j t hent ht
+  obtain ⟨hmem, hreq0⟩ := find?_mem_req hf
+  refine ⟨t, l, tx, ht, hl, by rw [← hreq]; exact hf, hpk'.trans hpk, ?_, hint'.trans hint, by rw [← hint]; exact htime⟩
+  rcases hI.live tx hmem with h4 | ⟨l', hl', hs'⟩
+  · exact absurd (by rw [hpat]; exact hent) (h4 j t ht hreq0.symm)
+  · rw [hl] at hl'; cases hl'; exact hs'
+
+theorem stepT_of_ok {c : Cfg} {s s' : State} {e : Ev} (h : step c s e = .ok s') : stepT c s e = s' := by
+  unfold stepT; rw [h]
+
+theorem send_arms_eq {c : Cfg} (hc : c.Repaired) {s : State} {l : Link} (hl : s.link = some l)
+    (hnr : l.needsResending = true) (pk : Pk) (ex : Pattern) (T : Nat) (hex : ex ≠ [])
+    (hsz : pk.size ≤ Gen.C10.maxDataSize) :
+    step c s (.send pk ex T) = .ok
+      { s with nextReq := s.nextReq + 1,
+               timers := s.timers ++ [mkTimer s pk (pk.header :: ex) T s.nextReq],
+               patterns := dset s.patterns (pk.header :: ex) s.timers.length,
+               log := mkTx s l pk s.nextReq none s.now T :: s.log } := by
+  have : ¬ pk.size > Gen.C10.maxDataSize := Nat.not_lt.mpr hsz
+  simp [step, this, sendCore_fresh hc, hl, hex, hnr, mkTx, mkTimer]
+
+theorem send_plain_eq {c : Cfg} (hc : c.Repaired) {s : State} {l : Link} (hl : s.link = some l)
+    (pk : Pk) (ex : Pattern) (T : Nat) (h : ex = [] ∨ l.needsResending = false)
+    (hsz : pk.size ≤ Gen.C10.maxDataSize) :
+    step c s (.send pk ex T) = .ok
+      { s with nextReq := s.nextReq + 1, log := mkTx s l pk s.nextReq none s.now T :: s.log } := by
+  have : ¬ pk.size > Gen.C10.maxDataSize := Nat.not_lt.mpr hsz
+  have h' : ¬ (ex ≠ [] ∧ l.needsResending = true) := by
+    rintro ⟨h1, h2⟩; rcases h with h | h
+    · exact h1 h
+    · rw [h] at h2; cases h2
+  simp [step, this, sendCore_fresh hc, hl, h', mkTx]
+
+theorem run_retry_eq {c : Cfg} (hc : c.Repaired) {s : State} {j : Nat} {t : Timer} {l : Link}
+    (ht : s.timers[j]? = some t) (he : t.st = .expired) (hl : s.link = some l)
+    (hent : dget s.patterns t.pattern = some j) :
+    step c s (.run j) = .ok
+      { s with timers := s.timers.modify j (setSt .done) ++ [mkTimer s t.pk t.pattern t.interval t.req],
+               patterns := dset s.patterns t.pattern s.timers.length,
+               log := mkTx s l t.pk t.req (some j) t.deadline t.interval :: s.log } := by
+  simp [step, ht, he, hc.keeps, sendCore_retry hc, hl, hent, mkTx, mkTimer]
+
+theorem expire_eq (c : Cfg) {s : State} {j : Nat} {t : Timer} (ht : s.timers[j]? = some t) (ha : t.st = .armed)
+    (hd : t.deadline ≤ s.now) :
+    step c s (.expire j) = .ok { s with timers := s.timers.modify j (setSt .expired) } := by
+  simp [step, ht, ha, hd]
+
+/-! ## transmission times of one request -/
+
+/-- the transmissions of request `r`, newest first -/
+def txOf (r : Nat) (log : List Tx) : List Tx := log.filter (fun x => x.req == r)
+
+/-- consecutive elements (newest first) are related by `ok newer older` -/
+def GapsOf (ok : Tx → Tx → Prop) : List Tx → Prop
+  | a :: b :: rest => ok a b ∧ GapsOf ok (b :: rest)
+  | _ => True
+
+theorem txOf_head_of_find? {r : Nat} {log : List Tx} {prev : Tx} (h : log.find? (fun x => x.req == r) = some prev) :
+    ∃ rest, txOf r log = prev :: rest := by
+  induction log with
+  | nil => simp at h
+  | cons x xs ih =>
+    simp only [txOf, List.filter_cons]
+    by_cases hx : (x.req == r) = true
+    · simp only [hx, if_true]
+      simp only [List.find?_cons, hx] at h
+      cases h
+      exact ⟨_, rfl⟩
+    · have hx' : (x.req == r) = false := by simpa using hx
+      simp only [hx', Bool.false_eq_true, if_false]
+      simp only [List.find?_cons, hx'] at h
+      exact ih h
+
+theorem txOf_nil_of_fresh {r : Nat} {log : List Tx} (h : ∀ x ∈ log, x.req ≠ r) : txOf r log = [] := by
+  simp only [txOf, List.filter_eq_nil_iff]
+  intro x hx; simpa using h x hx
+
+/-- every retransmission of `r` is related to the transmission before it as `Spaced` says -/
+theorem gaps_of_spaced {log : List Tx} (hs : Spaced log) (r : Nat) :
+    GapsOf (fun a b => b.time + a.interval = a.due ∧ a.due ≤ a.time ∧ b.pk = a.pk ∧ b.sid = a.sid ∧
+      b.interval = a.interval ∧ a.retry.isSome) (txOf r log) := by
+  induction log with
+  | nil => simp [txOf, GapsOf]
+  | cons x xs ih =>
+    obtain ⟨h1, h2, h3⟩ := hs
+    have ih' := ih h3
+    simp only [txOf, List.filter_cons]
+    by_cases hx : (x.req == r) = true
+    · simp only [hx, if_true]
+      have hxr : x.req = r := by simpa using hx
+      cases hret : x.retry with
+      | none =>
+        have : txOf r xs = [] := txOf_nil_of_fresh (by rw [← hxr]; exact h2 hret)
+        simp only [txOf] at this
+        rw [this]; simp [GapsOf]
+      | some k =>
+        obtain ⟨prev, hf, g1, g2, g3, g4, g5⟩ := h1 (by simp [hret])
+        rw [hxr] at hf
+        obtain ⟨rest, hrest⟩ := txOf_head_of_find? hf
+        simp only [txOf] at hrest ih'
+        rw [hrest] at ih' ⊢
+        exact ⟨⟨g1, g2, g3, g4, g5, by simp [hret]⟩, ih'⟩
+    · have hx' : (x.req == r) = false := by simpa using hx
+      simp only [hx', Bool.false_eq_true, if_false]
+      exact ih'
+
+/-- closed form: if consecutive transmissions are exactly `T` apart, the `k`-th transmission counted from the first
+happens at `t0 + k * T` -/
+theorem arith_of_gaps {T : Nat} : ∀ (l : List Tx), GapsOf (fun a b => a.time = b.time + T) l →
+    ∀ (k : Nat) (x first : Tx), l.reverse[k]? = some x → l.reverse[0]? = some first → x.time = first.time + k * T := by
+  intro l
+  induction l with
+  | nil => intro _ k x first h; simp at h
+  | cons a rest ih =>
+    intro hg k x first hk h0
+    cases rest with
+    | nil =>
+      simp only [List.reverse_cons, List.reverse_nil, List.nil_append] at hk h0
+      cases k with
+      | zero => simp at hk h0; subst hk; subst h0; simp
+      | succ n => simp at hk
+    | cons b rest' =>
+      obtain ⟨hab, hg'⟩ := hg
+      have hlen : (b :: rest').reverse.length = rest'.length + 1 := by simp
+      rw [List.reverse_cons] at hk h0
+      have h0' : (b :: rest').reverse[0]? = some first := by
+        rwa [List.getElem?_append_left (by rw [hlen]; omega)] at h0
+      by_cases hkl : k < (b :: rest').reverse.length
+      · rw [List.getElem?_append_left hkl] at hk
+        exact ih hg' k x first hk h0'
+      · have hkl' : (b :: rest').reverse.length ≤ k := Nat.le_of_not_lt hkl
+        rw [List.getElem?_append_right hkl', hlen] at hk
+        obtain ⟨m, hm⟩ : ∃ m, k = rest'.length + 1 + m := ⟨k - (rest'.length + 1), by omega⟩
+        subst hm
+        rw [Nat.add_sub_cancel_left] at hk
+        cases m with
+        | succ n => simp at hk
+        | zero =>
+          simp only [List.getElem?_cons_zero, Option.some.injEq] at hk
+          subst hk
+          have hb : (b :: rest').reverse[rest'.length]? = some b := by
+            rw [List.reverse_cons, List.getElem?_append_right (by simp)]; simp
+          have := ih hg' rest'.length b first hb h0'
+          rw [hab, this, Nat.add_zero, Nat.succ_mul, Nat.add_assoc]
+
+
+/-! ## where transmissions go -/
+
+/-- a step transmits at most one packet, at the current time, to the link that is open when it runs -/
+theorem shape_log {s s' : State} {e : Ev} (h : Shape s e s') :
+    s'.log = s.log ∨ ∃ l tx, s.link = some l ∧ s'.log = tx :: s.log ∧ tx.sid = l.sid ∧ tx.time = s.now := by
+  cases h with
+  | same | advance | setResend | openLink | drop | bump | cancel | expire | runNoop => exact Or.inl rfl
+  | tx e l hl pk T he => exact Or.inr ⟨l, _, hl, rfl, rfl, rfl⟩
+  | armTx l hl pk ex T hex hnr => exact Or.inr ⟨l, _, hl, rfl, rfl, rfl⟩
+  | runRetry i0 t0 l ht0 he hl hent => exact Or.inr ⟨l, _, hl, rfl, rfl, rfl⟩
+
+/-- only `send`, a timer callback and the set-point of `close_link` can transmit -/
+def NoTxEv : Ev → Prop
+  | .send .. | .run _ | .closeSetpoint => False
+  | _ => True
+
+theorem shape_log_noTx {s s' : State} {e : Ev} (h : Shape s e s') (he : NoTxEv e) : s'.log = s.log := by
+  cases h with
+  | same | advance | setResend | openLink | drop | bump | cancel | expire | runNoop => rfl
+  | tx e l hl pk T he' =>
+    rcases he' with ⟨ex, rfl, _⟩ | rfl <;> exact absurd he (by simp [NoTxEv])
+  | armTx => exact absurd he (by simp [NoTxEv])
+  | runRetry => exact absurd he (by simp [NoTxEv])
+
+/-- only links that guarantee delivery: no retry timer is ever created -/
+def ReliableOnly : Ev → Prop
+  | .openLink nr => nr = false
+  | .setResend nr => nr = false
+  | _ => True
+
+theorem cancelAll_nil (d : Dict) : cancelAll [] d = [] :=
+  List.eq_nil_of_length_eq_zero (tsSim_cancelAll [] d).1
+
+theorem reliable_shape {s s' : State} {e : Ev} (hl : ∀ l, s.link = some l → l.needsResending = false)
+    (ht : s.timers = []) (he : ReliableOnly e) (h : Shape s e s') :
+    (∀ l, s'.link = some l → l.needsResending = false) ∧ s'.timers = [] := by
+  cases h with
+  | same | advance | bump | tx => exact ⟨hl, ht⟩
+  | setResend nr l hl' =>
+    refine ⟨?_, ht⟩
+    intro l' h'; simp only [Option.some.injEq] at h'; subst h'; exact he
+  | openLink nr =>
+    refine ⟨?_, by simp [ht, cancelAll_nil]⟩
+    · intro l' h'; simp only [Option.some.injEq] at h'; subst h'; exact he
+  | drop e he' => exact ⟨by simp, by simp [ht, cancelAll_nil]⟩
+  | armTx l hl' pk ex T hex hnr => rw [hl l hl'] at hnr; cases hnr
+  | cancel => exact ⟨hl, by simp [ht]⟩
+  | expire i0 t0 ht0 => rw [ht] at ht0; simp at ht0
+  | runNoop i0 t0 ht0 => rw [ht] at ht0; simp at ht0
+  | runRetry i0 t0 l ht0 => rw [ht] at ht0; simp at ht0
+
+theorem reliable_run {c : Cfg} (hc : c.Repaired) {s : State} (hl : ∀ l, s.link = some l → l.needsResending = false)
+    (ht : s.timers = []) (evs : List Ev) (he : ∀ e ∈ evs, ReliableOnly e) : (run c s evs).timers = [] := by
+  induction evs generalizing s with
+  | nil => exact ht
+  | cons e rest ih =>
+    obtain ⟨h1, h2⟩ := reliable_shape hl ht (he e (List.mem_cons_self)) (step_shape hc s e)
+    exact ih h1 h2 (fun e' he' => he e' (List.mem_cons_of_mem _ he'))
+
+/-- steps of a continuation that do not end request `p` (see `Quiet`) -/
+def QuietRun (c : Cfg) : State → Pattern → List Ev → Prop
+  | _, _, [] => True
+  | s, p, e :: rest => Quiet s p e ∧ QuietRun c (stepT c s e) p rest
+
+theorem sched_run {c : Cfg} (hc : c.Repaired) {s : State} (hI : Inv s) {r : Nat} {pk : Pk} {p : Pattern} {T j : Nat}
+    (hs : Sched s r pk p T j) (evs : List Ev) (hq : QuietRun c s p evs) : ∃ j', Sched (run c s evs) r pk p T j' := by
+  induction evs generalizing s j with
+  | nil => exact ⟨j, hs⟩
+  | cons e rest ih =>
+    obtain ⟨j1, h1⟩ := sched_shape hI hs hq.1 (step_shape hc s e)
+    exact ih (inv_stepT hc hI e) h1 hq.2
+
 end CfVerif.C10
